@@ -217,5 +217,35 @@ theorem get_applyAll_other (s : Store) (ws : List Write) (k : Bytes) (h : ∀ w 
 
 theorem wf_nil : WF ([] : Store) := trivial
 
+theorem get_of_mem {s : Store} (h : s.WF) {k : Bytes} {v : Val} (hm : (k, v) ∈ s) : s.get k = some v := by
+  induction s with
+  | nil => simp at hm
+  | cons p rest ih =>
+    obtain ⟨k', v'⟩ := p
+    obtain ⟨h1, h2⟩ := h
+    rcases List.mem_cons.mp hm with e | hm'
+    · simp only [Prod.mk.injEq] at e; obtain ⟨rfl, rfl⟩ := e; simp [get]
+    · have hne : k ≠ k' := (blt_ne (h1 _ hm')).symm
+      simp [get, hne, ih h2 hm']
+
+theorem mem_of_get {s : Store} {k : Bytes} {v : Val} (hg : s.get k = some v) : (k, v) ∈ s := by
+  induction s with
+  | nil => simp [get] at hg
+  | cons p rest ih =>
+    obtain ⟨k', v'⟩ := p
+    simp only [get] at hg
+    split at hg
+    · rename_i e; subst e; simp only [Option.some.injEq] at hg; subst hg; exact List.mem_cons_self
+    · exact List.mem_cons_of_mem _ (ih hg)
+
+theorem mem_iff_get {s : Store} (h : s.WF) (k : Bytes) (v : Val) : (k, v) ∈ s ↔ s.get k = some v :=
+  ⟨get_of_mem h, mem_of_get⟩
+
+theorem mem_scan {s : Store} {p : Bytes} {e : Bytes × Val} : e ∈ s.scan p ↔ e ∈ s ∧ isPrefixOf p e.1 = true := by
+  simp [scan]
+
+theorem has_iff (s : Store) (k : Bytes) : s.has k = true ↔ ∃ v, s.get k = some v := by
+  simp [has, Option.isSome_iff_exists]
+
 end Store
 end Cctp
